@@ -143,6 +143,10 @@ namespace ip {
 		m_bound_to = bind_ip;
 		m_user_bound_to = bind_ip;
 		m_channel = c;
+		// the accepting end is subject to the same path MTU as the connector
+		m_mss = m_io_service.sim().config().path_mtu(bind_ip.address()
+			, c->ep[0].address());
+		m_cwnd = m_mss * 2;
 		assert(m_forwarder);
 		c->hops[1].replace_last(m_forwarder);
 	}
